@@ -315,6 +315,14 @@ def gen_special(rng, tier):
                 yield Case("numhash", [r])
     for s in SPECIAL_F + INF_F + ZEROS:
         yield Case("numhash", [s])
+    # FloatEncoding::decode of the model against the real one
+    for s in SPECIAL_F:
+        yield Case("fdecode", [s])
+    for _ in range(300 if tier == "quick" else 20000):
+        if rng.random() < 0.5:
+            yield Case("fdecode", ["p:f64:%x" % (rng.getrandbits(64) & rng.choice([(1 << 64) - 1, 0x800fffffffffffff, 0xfff0000000000000 | rng.getrandbits(52)]))])
+        else:
+            yield Case("fdecode", ["p:f32:%x" % (rng.getrandbits(32) & rng.choice([0xffffffff, 0x807fffff, 0xff800000 | rng.getrandbits(23)]))])
     # primitive AbsOrd / AbsEq incl. iN::MIN
     for t, b in ITYPES:
         xs = [-(1 << (b - 1)), -(1 << (b - 1)) + 1, (1 << (b - 1)) - 1, 0, 1, -1, 5, -5]
